@@ -475,7 +475,11 @@ def _main(prop, argv=None):
     ap.add_argument('--no-build', action='store_true')
     a = ap.parse_args(argv)
     tier = 'thorough' if a.tier == 'thorough' else 'quick'
-    seed = int(os.environ.get('VERIF_SEED', '0') or 0)
+    raw_seed = os.environ.get('VERIF_SEED', '0') or '0'
+    try:
+        seed = int(raw_seed)
+    except ValueError:          # any string is a seed
+        seed = int(hashlib.sha1(raw_seed.encode()).hexdigest()[:12], 16)
     rng = random.Random('%s-%d' % (prop.id, seed))
     t0 = time.time()
     pid = prop.id
